@@ -11,3 +11,5 @@ def handle : List String → Option String
   | _ => none
 
 end Rs1090.Driver.C13
+
+def main : IO Unit := Rs1090.Driver.runLoop Rs1090.Driver.C13.handle
